@@ -126,6 +126,14 @@ def sliceFrom (idx : Nat) : Rd Bytes := fun buf st =>
   else if st.pos > buf.length then (.panic "slice_from:slice", st)
   else (.ok ((buf.drop idx).take (st.pos - idx)), st)
 
+/-- run a pure parser on what is left; it says how many octets it consumed (never more than are
+there) — a `while decoder.len() >= k { .. }` loop that may leave a tail.  One tick per octet. -/
+def parsePrefix {α} (p : Bytes → Outcome α × Nat) : Rd α := fun buf st =>
+  let d := buf.drop st.pos
+  let r := p d
+  let used := min r.2 d.length
+  (r.1, { pos := st.pos + used, ticks := st.ticks + used })
+
 /-- `Name::read` (Model/NameWire.lean, instrumented copy) as a reader -/
 def name : Rd Name := fun buf st =>
   match Name.readNameSteps buf st.pos with
